@@ -781,3 +781,55 @@ def server_reopen(B):
         B.prove("failed-bind-or-listen-releases-the-new-socket", ok or (newsock[0].open is False), top=True)
         B.prove("opened-flag-matches", E.values_equal(B.ctx, B.ctx.st(srv)["opened"], ok), top=True)
     B.no_other_exception()
+
+
+# ---------------------------------------------------------------------------------------------- Server.removeIx / closeIx (C11)
+def remove_ix_contract(B, tls, fn):
+    """the way every layer above (http Server / BareServer closeConnection, idle timeout, cutoff) releases ONE connection:
+    removeIx(ca) closes that connection's socket and forgets it; closeIx(ca) closes it and keeps it indexed; no other
+    connection's socket is touched or forgotten (frame); an unknown address raises ValueError and changes nothing"""
+    net = Net(B)
+    net.inject = False
+    n = B.choice(1, 2, label="nconn")
+    srv, ss, rems = make_server(B, net, n, tls)
+    known = B.choice(True, False, label="address-is-indexed")
+    ca = rems[0][0] if known else ("10.9.9.9", 9)
+    close = B.choice(True, False, label="close-flag") if fn == "removeIx" else True
+    ctx = B.ctx
+    before = dict(ctx.st(ctx.st(srv)["ixes"])["v"])
+    if fn == "removeIx":
+        B.call(srv, ca, close, qual=SERVER + ".removeIx")
+    else:
+        B.call(srv, ca, qual=SERVER + ".closeIx")
+    ix = ctx.st(ctx.st(srv)["ixes"])["v"]
+    if not known:
+        B.prove("unknown-address-raises-ValueError", bool(B.raised(ValueError)), top=True)
+        B.handled = True
+        B.prove("unknown-address-changes-nothing", set(ix.keys()) == set(before.keys()) and all(s.open for _, _, s in rems), top=True)
+        return
+    B.prove("returns-normally-for-an-indexed-address", bool(B.returned()), top=True)
+    tgt = rems[0]
+    if close:
+        B.prove("the-connection-socket-is-closed", tgt[2].open is False, top=True)
+        B.prove("the-remoter-forgets-its-socket", ctx.st(tgt[1])["cs"] is None, top=True)
+    else:
+        B.prove("close-False-leaves-the-socket-to-the-caller", tgt[2].open is True, top=True)
+    if fn == "removeIx":
+        B.prove("the-address-is-no-longer-indexed", BI.hashable(ca) not in ix, top=True)
+    else:
+        B.prove("closeIx-keeps-the-address-indexed", BI.hashable(ca) in ix, top=True)
+    for ca2, rm2, s2 in rems[1:]:
+        B.prove("another-connection-stays-open", s2.open is True, top=True)
+        e = ix.get(BI.hashable(ca2))
+        B.prove("another-connection-stays-indexed-with-its-socket", e is not None and ctx.st(e[1])["cs"] == s2.ref, top=True)
+    B.prove("listen-socket-untouched", ss.open is True, top=True)
+    B.no_other_exception()
+
+
+for _tls in (False, True):
+    for _fn in ("removeIx", "closeIx"):
+        def _mk(_tls=_tls, _fn=_fn):
+            @contract(SERVER + "." + _fn, props=["C11"], name=(SERVERTLS if _tls else SERVER) + "." + _fn + "[bounded <=2 connections]")
+            def _c(B):
+                remove_ix_contract(B, _tls, _fn)
+        _mk()
